@@ -2426,8 +2426,16 @@ class PyCdlib:
                 self._cdfp.seek(tmp_isohybrid.primary_gpt.header.backup_lba * 512)
                 tmp_isohybrid.parse_secondary_gpt_header(self._cdfp.read(512))
 
-                self._cdfp.seek((tmp_isohybrid.secondary_gpt.header.current_lba * 512) - (tmp_isohybrid.secondary_gpt.header.num_parts * 128))
-                tmp_isohybrid.parse_secondary_gpt_partitions(self._cdfp.read(tmp_isohybrid.secondary_gpt.header.num_parts * 128))
+                # The partition array is described by fields of the backup
+                # header; make sure that it lies inside of the ISO before
+                # seeking to it and reading it.
+                gpt_parts_len = tmp_isohybrid.secondary_gpt.header.num_parts * 128
+                gpt_parts_start = (tmp_isohybrid.secondary_gpt.header.current_lba * 512) - gpt_parts_len
+                if gpt_parts_start < 0 or gpt_parts_start + gpt_parts_len > self._get_iso_size():
+                    raise pycdlibexception.PyCdlibInvalidISO('Backup GPT partition array is outside of the ISO')
+
+                self._cdfp.seek(gpt_parts_start)
+                tmp_isohybrid.parse_secondary_gpt_partitions(self._cdfp.read(gpt_parts_len))
 
             # We only save the object if it turns out to be a valid IsoHybrid.
             self.isohybrid_mbr = tmp_isohybrid
